@@ -30,7 +30,8 @@ struct Solver {
         std::vector<int> order;
         for (int i = 0; i < ml.size; i++) if (MoveGen::givesCheck(pos, ml[i])) order.push_back(i);
         size_t nChecks = order.size();
-        if (n >= 2) for (int i = 0; i < ml.size; i++) if (!MoveGen::givesCheck(pos, ml[i])) order.push_back(i);
+        // (non-checking moves are tried too even for n == 1: the ordering must not make the solver depend on givesCheck)
+        for (int i = 0; i < ml.size; i++) if (!MoveGen::givesCheck(pos, ml[i])) order.push_back(i);
         (void)nChecks;
         for (int idx : order) {
             const Move& m = ml[idx];
